@@ -76,8 +76,10 @@ typedef struct {
   long clock;
   int next_ino;         /* inode allocator: lowest free number >= ino_base is reused */
   int ino_base;
+  unsigned long long ino_off;   /* reported inode number = internal index + ino_off (0 unless a harness asks for numbers >= 2^32) */
   unsigned long ncalls_total;
 } simworld;
+#define SIM_RINO(i) ((unsigned long long)(i) + W.ino_off)
 
 extern simworld W;
 extern simproc P[SIM_MAXPROC];
@@ -153,6 +155,8 @@ void sim_dump(hbuf *out, const char *prefix, int with_content);
 
 /* select hook: returns number ready; default implementation in sim.c */
 extern int (*sim_select_hook)(simproc *p, int nfds, fd_set *r, fd_set *w, struct timeval *tv);
+extern int sim_select_writeback;    /* 1 (default): select() writes the remaining time back into *timeout, as Linux does */
+extern void (*sim_gate_hook)(simproc *p, const char *what);   /* optional observer of every gated call (default: none) */
 
 /* scheduling (thread mode) */
 extern int sim_threads;              /* 1 = baton scheduling active */
